@@ -223,12 +223,15 @@ NoPanicStartNil == why # "start.nil"
 NoPanicStartDiv0 == why # "start.div0"
 \* the usual arrival order: every track has delivered its first segment before the master's second (state constraint)
 FirstBeforeSecond == pos[Master] >= 2 => \A t \in Tracks : pos[t] >= 1 /\ t \in Registered
+\* (TLC evaluates invariants also on states that fail the constraint, hence the guards)
+SyncNoPanic == FirstBeforeSecond => ~panic
 Listed == ~listedBad                                                     \* C17.listed (files of every Representation at publication)
 NewestMono == [][latest' >= latest /\ (mpd # <<>> /\ mpd' # <<>> => mpd'[2] >= mpd[2])]_vars      \* C17.newest
 BoundedBuf == /\ \A t \in Tracks : bufs[t].made => bufs[t].n <= Len(bufs[t].items) /\ BufBounded(bufs[t].n, Len(bufs[t].items), genWindow)
               /\ ctr.n <= Len(ctr.seq) /\ BufBounded(ctr.n, Len(ctr.seq), genWindow)          \* C17.bounded (buffers)
 BoundedFiles == \A t \in post : FilesBounded(Cardinality(files[t]), MaxBufSegs)                \* C17.bounded (storage)
 Bounded == BoundedBuf /\ BoundedFiles
+SyncBounded == (pos[Master] >= 2 => \A t \in Tracks : pos[t] >= 1 /\ t \in Range(reg)) => Bounded
 \* sanity of the model itself (never expected to fail): the published range is inside the master's files
 TypeOK == /\ latest >= 0 /\ (mpd # <<>> => mpd[1] <= mpd[2] /\ mpd[2] = latest)
 
